@@ -131,7 +131,7 @@ impl World {
                 );
             }
         }
-        if matches!(op.k, K::CloneH | K::DropH | K::PDropH) && (debt_post != debt_pre || self.metrics.total_gc_count() != cnt_pre) {
+        if matches!(op.k, K::CloneH | K::CloneFromH | K::DropH | K::PDropH) && (debt_post != debt_pre || self.metrics.total_gc_count() != cnt_pre) {
             viol!("c10.handle_op_changed_metrics", "{op:?} changed metrics");
         }
 
@@ -142,7 +142,7 @@ impl World {
         if !self.sc.fin {
             return Ok(());
         }
-        if (cb || matches!(op.k, K::DropH | K::CloneH | K::PDropH)) && matches!(pre, P::Marking | P::Marked) {
+        if (cb || matches!(op.k, K::DropH | K::CloneH | K::CloneFromH | K::PDropH)) && matches!(pre, P::Marking | P::Marked) {
             // (dropping a handle un-roots its target: a mutation of the root set)
             self.mutated = true;
         }
@@ -179,7 +179,7 @@ impl World {
 
     fn c08(&self, op: Op, pre: P, post: P, ret_some: Option<bool>) -> VResult {
         let nonempty = self.metrics.total_gc_count() > 0;
-        if is_callback(op) || matches!(op.k, K::CloneH | K::DropH | K::PDropH | K::AdjustDebt | K::SetPacing) {
+        if is_callback(op) || matches!(op.k, K::CloneH | K::CloneFromH | K::DropH | K::PDropH | K::AdjustDebt | K::SetPacing) {
             if op.is_fin() && !self.last_fin_ran {
                 if post != pre {
                     viol!("c08.callback_phase", "{op:?}: no MarkedArena was handed out but the phase moved {pre:?} -> {post:?}");
@@ -422,7 +422,7 @@ impl World {
                 match so.cell {
                     None => {
                         if room {
-                            for kind in 0..3u8 {
+                            for kind in 0..(if sc.weak { 5u8 } else { 3u8 }) {
                                 ops.push(Op::n2(K::NewCell, *p, kind));
                             }
                         }
@@ -430,6 +430,20 @@ impl World {
                     Some(cid) => {
                         ops.push(Op::n1(K::DropCell, *p));
                         let co = &self.sh.objs[cid as usize];
+                        if co.kind == KCELL_W || co.kind == KCELL_WR {
+                            for c in &nodes {
+                                if co.w != Some(*c) {
+                                    ops.push(Op::n2(K::CellSetWeak, *p, *c));
+                                }
+                            }
+                            if room {
+                                ops.push(Op::n1(K::CellSetWeakNew, *p));
+                            }
+                            if co.w.is_some() {
+                                ops.push(Op::n1(K::CellClear, *p));
+                            }
+                            continue;
+                        }
                         for c in &nodes {
                             if co.s[0] != Some(*c) || co.kind == KCELL_O {
                                 ops.push(Op::n2(K::CellSet, *p, *c));
@@ -522,6 +536,11 @@ impl World {
                         if self.lent[hi as usize].is_none() {
                             ops.push(Op::n1(K::DropH, hi));
                             ops.push(Op::n1(K::PDropH, hi));
+                            for from in 0..sc.handles {
+                                if from != hi && self.hs[from as usize].is_some() && self.sh.handles[from as usize] != self.sh.handles[hi as usize] {
+                                    ops.push(Op::n2(K::CloneFromH, from, hi));
+                                }
+                            }
                         }
                         for r in 0..sc.r {
                             ops.push(Op::n2(K::FetchRoot, hi, r));
@@ -640,7 +659,13 @@ impl World {
         // release the shells
         let holders: Vec<u8> = (0..self.sh.objs.len() as u8).filter(|i| reach[*i as usize] && self.sh.objs[*i as usize].w.map(|t| self.sh.objs[t as usize].dropped).unwrap_or(false)).collect();
         for h in holders {
-            self.apply(Op::n1(K::ClearWeak, h))?;
+            if self.sh.objs[h as usize].kind == KNODE {
+                self.apply(Op::n1(K::ClearWeak, h))?;
+            } else {
+                // a weak cell: cleared through the node that owns it
+                let p = (0..self.sh.objs.len() as u8).find(|p| reach[*p as usize] && self.sh.objs[*p as usize].cell == Some(h)).expect("owner of a reachable cell");
+                self.apply(Op::n1(K::CellClear, p))?;
+            }
         }
         let holders: Vec<u8> = (0..self.sh.objs.len() as u8).filter(|i| reach[*i as usize] && self.sh.objs[*i as usize].wl.map(|t| self.sh.objs[t as usize].dropped).unwrap_or(false)).collect();
         for h in holders {
@@ -922,6 +947,15 @@ impl World {
                         });
                         assert!(r.is_err());
                     }
+                    6 => {
+                        // a rootless_mutate callback that allocates and then panics
+                        talloc::subject(|| {
+                            gc_arena::arena::rootless_mutate(|mc| {
+                                body(mc);
+                                injected_panic()
+                            })
+                        });
+                    }
                     _ => {
                         let _r: Result<A, ()> = talloc::subject(|| {
                             gc_arena::Arena::try_new(|mc| {
@@ -1001,7 +1035,7 @@ impl World {
         drop(metrics);
         self.finish()
     }
-    pub const C11_PROBES: u8 = 6;
+    pub const C11_PROBES: u8 = 7;
 
     /// End of an execution: drop everything the world holds.
     pub fn finish(mut self) -> VResult {
